@@ -221,12 +221,30 @@ def fn_programs() -> list:
         TUPLE(["pa", "pb", "pc"], [I(20), CALL("peek"), CALL("peek")]), WRITE(V("pa")), WRITE(V("pb")), WRITE(V("pc"))])
     add("fn_tuple_in_fn", {"peek": DEF([], [RETURN(V("ga"))]), "step": DEF([], [TUPLE(["ga", "gb"], [BIN("+", V("ga"), I(1)), CALL("peek")]), RETURN(V("gb"))], ["ga", "gb"])},
         [ASSIGN("ga", I(5)), ASSIGN("gb", I(0)), WRITE(CALL("step")), WRITE(CALL("step")), WRITE(V("ga"))])
-    # names a helper declares `global` that the MAIN LOOP (not the prologue) binds first: they are the helper's globals, not loop locals
-    add("fn_global_bound_in_loop", {"inc": DEF([], [AUG("gn", "+", I(1))], ["gn"])}, [], loop=[ASSIGN("gn", I(5)), EXPR(CALL("inc")), EXPR(CALL("inc")), WRITE(V("gn"))], npass=2)
+    # names a helper declares `global` AND ASSIGNS that the MAIN LOOP (not the prologue) binds first: they are the helper's globals,
+    # not loop locals (a helper that only aug-assigns such a name is the known C06 finding main-loop-variable-used-in-helper)
+    add("fn_global_bound_in_loop", {"inc": DEF([], [ASSIGN("gn", BIN("+", V("gn"), I(1)))], ["gn"])}, [], loop=[ASSIGN("gn", I(5)), EXPR(CALL("inc")), EXPR(CALL("inc")), WRITE(V("gn"))], npass=2)
     add("fn_global_swap_bound_in_loop", {"swp": DEF([], [TUPLE(["ga", "gb"], [V("gb"), V("ga")])], ["ga", "gb"])}, [],
         loop=[ASSIGN("ga", I(1)), ASSIGN("gb", I(2)), EXPR(CALL("swp")), WRITE(V("ga")), WRITE(V("gb"))], npass=2)
-    add("fn_global_tuple_bound_in_loop", {"inc": DEF([], [AUG("gp", "+", V("gq"))], ["gp", "gq"])}, [],
+    add("fn_global_tuple_bound_in_loop", {"inc": DEF([], [TUPLE(["gp", "gq"], [BIN("+", V("gp"), V("gq")), V("gq")])], ["gp", "gq"])}, [],
         loop=[TUPLE(["gp", "gq"], [I(1), I(10)]), EXPR(CALL("inc")), WRITE(V("gp"))], npass=2)
+    # a power whose base is a call with an effect (a counter, a print, a fresh sensor read): the base is evaluated ONCE
+    add("fn_pow_impure_base", {"nxt": DEF([], [AUG("pc", "+", I(1)), WRITE(S("called")), RETURN(V("pc"))], ["pc"])},
+        [ASSIGN("pc", I(1)), ASSIGN("tot", I(0)), AUG("tot", "+", BIN("**", CALL("nxt"), I(2))), WRITE(V("tot")), WRITE(V("pc")),
+         WRITE(BIN("**", AREAD(), I(2))), WRITE(BIN("**", CALL("nxt"), I(3))), WRITE(V("pc")), WRITE(BIN("**", I(2), CALL("nxt"))), WRITE(V("pc"))], ain=[3, 5])
+    add("fn_pow_impure_base_loop", {"nxt": DEF([], [AUG("pc", "+", I(1)), RETURN(V("pc"))], ["pc"])},
+        [ASSIGN("pc", I(0)), ASSIGN("tot", I(0))], loop=[AUG("tot", "+", BIN("**", CALL("nxt"), I(2))), WRITE(V("tot")), WRITE(BIN("*", AREAD(), AREAD()))], npass=3, ain=[2, 3, 4, 5, 6, 7])
+    # a name only the else arm (only the elif arm, only the except-less last arm) assigns keeps the type it has there when hoisted
+    add("fn_else_only_hoist", {"trim": DEF(["v"], [IF([(CMP(V("v"), (">", I(10))), [ASSIGN("lv", I(1))])], [ASSIGN("gainf", BIN("/", V("v"), I(4)))]), RETURN(BIN("*", V("gainf"), I(2)))])},
+        [ASSIGN("reading", AREAD()), IF([(CMP(V("reading"), (">", I(10))), [ASSIGN("level", I(1))])], [ASSIGN("ratio", BIN("/", V("reading"), I(10)))]), WRITE(V("ratio")),
+         ASSIGN("scaled", BIN("*", V("ratio"), I(100))), WRITE(V("scaled")), WRITE(CALL("trim", I(3))),
+         IF([(CMP(V("reading"), (">", I(10))), [ASSIGN("m1", I(1))]), (CMP(V("reading"), (">", I(5))), [ASSIGN("m2", F(2.5))])], [ASSIGN("m3", S("low"))]), WRITE(V("m2")),
+         IF([(CMP(V("reading"), (">", I(10))), [ASSIGN("n1", I(1))]), (CMP(V("reading"), (">", I(8))), [ASSIGN("n2", F(2.5))])], [ASSIGN("n3", S("low"))]), WRITE(V("n3"))], ain=[7])
+    # annotated parameters: Python does not enforce annotations - the value the call site passes is the value the parameter holds
+    add("fn_annotated_param", {"scale": DEF(["raw", "k"], [RETURN(BIN("*", V("raw"), V("k")))], ann={"raw": "int"}),
+                               "lbl": DEF(["t", "n"], [RETURN(FSTR("", V("t"), ":", V("n")))], ann={"t": "str", "n": "float"})},
+        [WRITE(CALL("scale", I(3), I(2))), WRITE(CALL("scale", I(3), F(1.5))), ASSIGN("c", CALL("scale", F(2.5), I(2))), WRITE(V("c")),
+         ASSIGN("avg", BIN("/", AREAD(), I(2))), ASSIGN("d", CALL("scale", V("avg"), I(2))), WRITE(V("d")), WRITE(CALL("lbl", S("a"), I(3))), WRITE(CALL("lbl", S("b"), F(2.5)))], ain=[7])
     # n-ary min / max mixing a float with several ints (the result type and every intermediate must hold the float)
     add("fn_nary_minmax", {"cap": DEF(["v"], [RETURN(CALL("min", V("v"), I(100), I(255)))])},
         [ASSIGN("smp", BIN("*", AREAD(), F(0.5))), WRITE(CALL("max", V("smp"), I(1), I(2))), WRITE(CALL("min", F(0.5), AREAD(), I(7))),
